@@ -3,7 +3,7 @@
 Require Extraction.
 Require Import ExtrOcamlBasic.
 From RxModel Require Import Derived Ops2 Subject GroupBy Flatten Timed Async Subscr Finalize Fin Pipe Indep Share Convert Conc Ileave.
-From RxSpec Require Import DerivedSpec Ops2Spec SubjectSpec BehaviorSpec GroupBySpec FlattenSpec FlattenItems TimedSpec SubscrSpec FinalizeSpec IleaveSpec.
+From RxSpec Require Import DerivedSpec Ops2Spec SubjectSpec BehaviorSpec GroupBySpec FlattenSpec FlattenItems TimedSpec RelayComplete SubscrSpec FinalizeSpec IleaveSpec.
 (* the hypotheses of the interleaving theorems are computable predicates on cases: the runner evaluates them on every case *)
 From RxProofs Require Import IleaveInv IleaveLaws.
 Extraction Language OCaml.
@@ -15,7 +15,7 @@ Extraction "model.ml"
   srun subj0 arun asub0 size_ok brun bsubj0 abrun sops_of
   run_group_by first_keys group_trace announced flattened outer_term announced_first items_of term_of term_evs val_eqb
   run_flatten downstream peak_ok subs_increasing completion_ok silent_after_unsub items_exact_ok subs_consecutive concat_exclusive_ok
-  run_timed raw_ok timed_ok prompt_case remaining closed_sound_ok
+  run_timed raw_ok timed_ok timed_complete prompt_case remaining closed_sound_ok
   run_async yields pendings
   crun cstate0 alg_ok
   run_finalize_segs run_finalize_segs_from fin_ok fspec0 fspec1 rrun
